@@ -22,7 +22,7 @@ def c02(tier, dev):
 FOREIGN = {
     "C01": [("C15", r":store-|:wild-access"), ("C14", r":write-at-dmax|:wrote-outside-objects")],
     "C02": [("C15", r":load-"), ("C14", r":read-at-dmax|:read-via-unset-ptr")],
-    "C03": [("C15", r":not-terminated")],
+    "C03": [("C15", r":not-terminated|:no-space-accepted")],
     "C04": [("C15", r":not-cleared")],
     "C06": [("C15", r":no-space-accepted|:wrong-characters|:wrong-count")],
 }
@@ -53,6 +53,7 @@ PROPS = {"C01": c01, "C02": c02, "C03": two_builds("C03"), "C04": two_builds("C0
          "C16": lambda tier, dev: run_cs_property("C16", tier, [Campaign("C16", "plain")], assumptions=ASSUME_GENERIC[:2] + ["comparators are consistent total preorders"], dev=dev),
          "C20": lambda tier, dev: run_cs_property("C20", tier, [Campaign("C20", "plain")], level="fault_enumeration", assumptions=ASSUME_GENERIC[:2] + ["allocation requests of the statically linked library are intercepted with -Wl,--wrap=malloc,calloc,realloc,free; allocations made inside libc on the library's behalf are not"], dev=dev),
          "C13": lambda tier, dev: run_cs_property("C13", tier, [Campaign("C13", "plain")], assumptions=ASSUME_GENERIC[:2] + ["the harness owns the schedule: real pthreads execute one operation at a time, so the interleaving is the generated sequence", "the default handler is observed through -Wl,--wrap=ignore_handler_s"], dev=dev),
+         "C12": lambda tier, dev: run_cs_property("C12", tier, [Campaign("C12", "shared")], assumptions=["x86-64 Linux/glibc; the harness is linked against libsafec.so built from the working tree (gcc -O1 -fPIC); the writable PT_LOAD segment of the library minus RELRO is its static storage", "state kept inside libc on the library's behalf is libc's reentrancy, not judged", "the handler registration words str_handler/mem_handler are the allowed mutable state"], dev=dev),
          "C05": lambda tier, dev: run_cs_property("C05", tier, [Campaign("C05", "plain")], assumptions=ASSUME_GENERIC, dev=dev)}
 
 def external(prop, script):
